@@ -2,6 +2,7 @@ package checks
 
 import (
 	"bytes"
+	"crypto/md5"
 	"encoding/hex"
 	"fmt"
 	"reflect"
@@ -31,7 +32,10 @@ type c12Req struct {
 	Consistency int    `json:"consistency"`
 	IsSelect    bool   `json:"is_select"`         // SELECT text (QUERY) or id prepared from SELECT text (EXECUTE)
 	Prepare     string `json:"prepare,omitempty"` // EXECUTE of a known id: the text PREPAREd through the proxy first
-	Note        string `json:"note,omitempty"`
+	// Early: before that PREPARE the same connection EXECUTEs the id the backend is going to hand out (a driver that kept the
+	// id from an earlier life of the proxy): the proxy then knows nothing about the id; what it learns from the PREPARE counts
+	Early bool   `json:"execute_before_prepare,omitempty"`
+	Note  string `json:"note,omitempty"`
 }
 
 type c12Case struct {
@@ -91,8 +95,24 @@ func c12Check(c c12Case) *evid.Fail {
 	r := &runner{e: e, c: cl, v: v, stream: 100, compress: false, prepared: map[string][]byte{}}
 	ids := map[string][]byte{}
 	e.Cluster.PreparedColumns = c.WideMeta
+	earlyExec := func(q c12Req) *evid.Fail {
+		if !q.Early {
+			return nil
+		}
+		sum := md5.Sum([]byte("\x00" + q.Prepare)) // the fake backend's id for this text outside any keyspace
+		es := r.nextStream()
+		efrom := cl.NumFrames()
+		_ = cl.SendMsg(v, es, &message.Execute{QueryId: sum[:], ResultMetadataId: []byte{1}, Options: &message.QueryOptions{Consistency: primitive.ConsistencyLevelAll, PositionalValues: []*primitive.Value{primitive.NewValue([]byte("early"))}}}, false)
+		if cl.WaitStream(es, efrom, 1, posWait) == nil {
+			return evid.Failf("harness-early-execute", "no reply to the early EXECUTE")
+		}
+		return nil
+	}
 	for _, q := range c.Reqs {
 		if q.Prepare != "" && !c.Immediate {
+			if f := earlyExec(q); f != nil {
+				return f
+			}
 			id, err := r.prepare(q.Prepare)
 			if err != nil {
 				return evid.Failf("harness-prepare", "%v", err)
@@ -128,9 +148,15 @@ func c12Check(c c12Case) *evid.Fail {
 		plain, _ := hex.DecodeString(q.Body)
 		if q.Prepare != "" {
 			if _, ok := ids[q.Prepare]; !ok {
+				if f := earlyExec(q); f != nil {
+					return f
+				}
 				id, err := r.prepare(q.Prepare)
 				if err != nil {
 					return evid.Failf("harness-prepare", "%v", err)
+				}
+				if sum := md5.Sum([]byte("\x00" + q.Prepare)); q.Early && !bytes.Equal(id, sum[:]) {
+					return evid.Failf("harness-early-id", "the early EXECUTE used id %x, the PREPARE returned %x", sum, id)
 				}
 				ids[q.Prepare] = id
 			}
@@ -390,8 +416,12 @@ func TestC12(t *testing.T) {
 	}, c12Check)
 
 	// a long prepare history between the PREPARE of a SELECT and its EXECUTE
-	runProp(t, rec, "history", perShard(evid.Pick(4, 120)), func(rt *rapid.T) c12Case {
+	runProp(t, rec, "history", perShard(evid.Pick(12, 240)), func(rt *rapid.T) c12Case {
 		c := c12Case{Version: 4, Unsupported: []int{int(primitive.ConsistencyLevelOne)}, Override: int(primitive.ConsistencyLevelLocalQuorum), Filler: rapid.IntRange(9000, 20000).Draw(rt, "filler")}
+		early := rapid.Bool().Draw(rt, "early")
+		if early {
+			c.Filler = rapid.IntRange(0, 300).Draw(rt, "smallfiller")
+		}
 		for i := 0; i < 2; i++ {
 			tok := nextToken()
 			sel := i == 0
@@ -401,9 +431,9 @@ func TestC12(t *testing.T) {
 			}
 			ex := &message.Execute{QueryId: []byte("0123456789abcdef"), Options: &message.QueryOptions{Consistency: primitive.ConsistencyLevelOne, PositionalValues: []*primitive.Value{primitive.NewValue([]byte(tok))}}}
 			body, flags, _ := protogen.EncodeBody(4, ex, nil, false)
-			c.Reqs = append(c.Reqs, c12Req{Op: int(primitive.OpCodeExecute), Flags: int(flags), Body: hex.EncodeToString(body), Token: tok, Consistency: int(primitive.ConsistencyLevelOne), IsSelect: sel, Prepare: text, Note: "execute-known-id-after-long-history"})
+			c.Reqs = append(c.Reqs, c12Req{Op: int(primitive.OpCodeExecute), Flags: int(flags), Body: hex.EncodeToString(body), Token: tok, Consistency: int(primitive.ConsistencyLevelOne), IsSelect: sel, Prepare: text, Note: "execute-known-id-after-long-history", Early: early})
 		}
-		rec.Case(fmt.Sprintf("history:%d", c.Filler), "prepare-history")
+		rec.Case(fmt.Sprintf("history:%d:%v", c.Filler, early), "prepare-history", map[bool]string{true: "execute-before-prepare", false: ""}[early])
 		return c
 	}, c12Check)
 }
